@@ -10,7 +10,9 @@ COQ_CASE_TYPE = "Durq.case"
 COQ_BRANCHES = ("Durq.case_branches", "Durq.n_branches")
 SHARD = 100
 COQ_HEADER = []        # filled by _eq_table(): the value domain and the Python-equality table, once per case file
-RULE = ("histories of push / push(None) / extend|update / pull(emptive or not) / clear / count / remove / sync(force) over "
+RULE = ("histories of push / push(None) / extend|update / pull(emptive or not) / clear / count / remove / sync(force) and "
+        "REJECTED operations (extend|update|put of a batch with a non-RegDom member (str, int, dict, None) at a random "
+        "position after >= 0 valid members, push/remove/add of such a value; the caller catches the error and carries on) over "
         "up to 3 queues (keys 'q', 'qq', 'top.q') sharing one real LMDB sub-db of a Subery, values from an 11-element "
         "domain of Bag/IceBag instances with duplicates (and, in a separate stream, values equal in Python but "
         "serialised differently: 1 / 1.0 / True); between any two ops the store may be closed and reopened with fresh "
@@ -31,6 +33,16 @@ PLAIN = [0, 1, 2, 3, 4, 5, 6]          # pairwise: Python-equal iff same seriali
 ALL = list(range(len(VALS)))
 
 
+INVALID = ["x", 5, {"a": 1}, None]
+
+
+def _bad(kind, in_batch=True):
+    v = INVALID[kind % len(INVALID)]
+    if v is None and not in_batch:
+        v = 7.5                      # push(None) is the accepted no-op, not a rejection
+    return dict(v) if isinstance(v, dict) else v
+
+
 def _mk(i):
     from hio.base.hier import Bag, IceBag
     c, v = VALS[i]
@@ -46,11 +58,14 @@ def directed():
                ["pull", 0, True], ["pull", 1, True], ["pull", 2, False], ["reinject", 0, [6]], ["reinject", 1, [6, 6]],
                ["clear", 0], ["clear", 0], ["sync", 0, True], ["push", 0, 4], ["reopen", {}], ["pull", 0, False],
                ["pull", 0, False]]
+        ops += [["push", 1, 0], ["extendbad", 1, [1, 2], [3], 0], ["extendbad", 1, [], [1], 1], ["extendbad", 1, [4], [], 3],
+                ["pushbad", 1, 2], ["rawputbad", 1, [1], [2], 0], ["rawaddbad", 1, 1], ["sync", 1, False], ["pull", 1, True],
+                ["reopen", {}], ["extendbad", 1, [5, 6], [0], 2], ["pull", 1, False]]
         if kind == "durq":
             ops += [["push", 2, 1], ["count", 2, 5], ["count", 2, 1], ["count", 2, 0]]
         else:
             ops += [["push", 2, 1], ["remove", 2, 1], ["remove", 2, 1], ["remove", 2, 5], ["remove", 2, 0], ["reopen", {}],
-                    ["remove", 2, 6]]
+                    ["remove", 2, 6], ["push", 2, 2], ["removebad", 2, 0], ["removebad", 2, 2]]
         out.append({"kind": kind, "ops": ops})
     # D38 witness: values equal in Python, serialised differently
     out.append({"kind": "dusq", "ops": [["push", 0, 0], ["push", 0, 7], ["push", 0, 8]]})
@@ -73,8 +88,23 @@ def _gen(rng, kind, dom, n):
             ops.append(["pull", q, rng.random() < 0.8])
         elif r < 0.67:
             ops.append(["clear", q])
-        elif r < 0.77:
+        elif r < 0.74:
             ops.append(["count" if kind == "durq" else "remove", q, rng.choice(dom)])
+        elif r < 0.77:
+            k = rng.randrange(4)
+            pre = [rng.choice(dom) for _ in range(rng.choice([0, 1, 1, 2, 3]))]
+            post = [rng.choice(dom) for _ in range(rng.choice([0, 0, 1, 2]))]
+            rr = rng.random()
+            if rr < 0.6:
+                ops.append(["extendbad", q, pre, post, k])
+            elif rr < 0.75:
+                ops.append(["pushbad", q, k])
+            elif rr < 0.87:
+                ops.append(["rawputbad", q, pre, post, k])
+            elif rr < 0.94 or kind == "durq":
+                ops.append(["rawaddbad", q, k])
+            else:
+                ops.append(["removebad", q, k])
         elif r < 0.80:
             ops.append(["pushnone", q])
         elif r < 0.85:
@@ -190,6 +220,18 @@ def run_impl(case):
                     r = _ret(obj.remove(_mk(o[2])))
                 elif name == "sync":
                     r = _ret(obj.sync(force=o[2]))
+                elif name in ("extendbad", "rawputbad"):
+                    vs = [_mk(i) for i in o[2]] + [_bad(o[4])] + [_mk(i) for i in o[3]]
+                    if name == "rawputbad":
+                        r = _ret(obj.put(vs))
+                    else:
+                        r = _ret(obj.extend(vs) if case["kind"] == "durq" else obj.update(vs))
+                elif name == "pushbad":
+                    r = _ret(obj.push(_bad(o[2], in_batch=False)))
+                elif name == "rawaddbad":
+                    r = _ret(obj.add(_bad(o[2], in_batch=False)))
+                elif name == "removebad":
+                    r = _ret(obj.remove(_bad(o[2], in_batch=False)))
                 elif name == "reinject":
                     w.inject(q, o[2])
                     r = ["bool", True]
@@ -244,6 +286,9 @@ def _events(case):
     return ev
 
 
+REJECTED = ("extendbad", "pushbad", "removebad", "rawputbad", "rawaddbad")
+
+
 def oracle(case, obs):
     eqt = obs["eq"]
     ser = [e[0] for e in eqt]
@@ -295,6 +340,9 @@ def oracle(case, obs):
                 want = ["ok", ["bool", False]]
         elif name == "sync":
             want = ["ok", ["bool", True]] if o[1] else ["ok", ["opt", None]]
+        elif name in REJECTED:
+            # a rejected operation raises and leaves cache and durable copy unchanged (and equal)
+            want = ["exc", "HierErr"]
         what = "queue" if not isset else "ordered set"
         if res != want:
             return f"event {n} {name} on {KEYS[q]!r}: returned {res}, a {what} returns {want}"
@@ -316,6 +364,8 @@ def classify(case, obs, why):
             used.add(o[2])
         elif o[0] in ("extend", "reinject"):
             used.update(o[2])
+        elif o[0] in ("extendbad", "rawputbad"):
+            used.update(o[2]); used.update(o[3])
         elif o[0] == "reopen":
             for v in o[1].values():
                 used.update(v)
@@ -359,6 +409,16 @@ def _coq_ev(ser, q, o):
         t = f"(Durq.Remove {_b(ser[o[1]])})"
     elif name == "sync":
         t = f"(Durq.Sync {coq_bool(o[1])})"
+    elif name == "extendbad":
+        t = f"(Durq.ExtendBad {_vals(ser, o[1])} {_vals(ser, o[2])})"
+    elif name == "rawputbad":
+        t = f"(Durq.RawPutBad {_vals(ser, o[1])} {_vals(ser, o[2])})"
+    elif name == "pushbad":
+        t = "Durq.PushBad"
+    elif name == "rawaddbad":
+        t = "Durq.RawAddBad"
+    elif name == "removebad":
+        t = "Durq.RemoveBad"
     else:
         raise ValueError(name)
     return f"({coq_N(q)}, {t})"
